@@ -73,6 +73,12 @@ func (s *Statement) Evict(reclaimeeTask *pod_info.PodInfo, message string,
 			reclaimeeTask.Job, s.sessionID)
 		return fmt.Errorf("failed to find job <%s> in session", reclaimeeTask.Job)
 	}
+	if current, found := job.GetAllPodsMap()[reclaimeeTask.UID]; found && current.Status == pod_status.Releasing {
+		// Already evicted (by this or an earlier statement) or already terminating - possibly through another copy of
+		// the task (victim jobs are cloned by the solvers). Evicting it again would fire the deallocate handlers a
+		// second time (queue usage subtracted twice) and emit a second eviction on commit.
+		return nil
+	}
 
 	node, nodeFound := s.ssn.ClusterInfo.Nodes[reclaimeeTask.NodeName]
 	if !nodeFound {
